@@ -64,6 +64,9 @@ def validate(ck, results, label):
                    'TracePersist %s sizes=(%s,%s) impl=%s samevalreg=%s set=%s: %d histories' % (label, key[0], key[1], key[2], key[3], key[4], len(sel)))
         ck.add_traces(len(sel))
         ck.bump('trace_events', sum(len(traces[i]) for i in sel))
+        for i in sel:
+            for e in traces[i]:
+                ck.bump('events_' + e['op'])
         rejected = {}
         for (ti, line) in bad:
             rejected[sel[ti]] = (line, summ.get('details', {}).get((ti, line), {}).get('why'))
@@ -156,16 +159,17 @@ def main():
     results = jobs.run_jobs('harness.workers.persist_worker', plan, pure=True)
     validate(ck, results, 'random histories')
     # 3. small scope, exhaustively: every history over 3 keys of a given length
-    plan = []
-    L = 5 if quick else 7
-    for impl in ('c', 'py'):
-        for is_set, fam in ((True, 'II'), (False, 'OO')):
-            nparts = 4 if quick else 16
-            for part in range(nparts):
-                plan.append(dict(fam=fam, impl=impl, is_set=is_set, leaf=2, internal=2, nkeys=3, mode='enumerate', length=L,
-                                 part=part, nparts=nparts, seed=0, pure=(impl == 'py')))
-    results = jobs.run_jobs('harness.workers.persist_worker', plan, pure=True)
-    validate(ck, results, 'all histories of length %d over 3 keys' % L)
+    for (L, extra) in ([(5, False), (4, True)] if quick else [(7, False), (5, True)]):
+        # (extra: the alphabet also has insert()/setdefault() of every key and popitem() / pop-smallest)
+        plan = []
+        for impl in ('c', 'py'):
+            for is_set, fam in ((True, 'II'), (False, 'OO')):
+                nparts = 4 if quick else 16
+                for part in range(nparts):
+                    plan.append(dict(fam=fam, impl=impl, is_set=is_set, leaf=2, internal=2, nkeys=3, mode='enumerate', length=L, extra_ops=extra,
+                                     part=part, nparts=nparts, seed=0, pure=(impl == 'py')))
+        results = jobs.run_jobs('harness.workers.persist_worker', plan, pure=True)
+        validate(ck, results, 'all histories of length %d over 3 keys%s' % (L, ' (with insert/setdefault/popitem)' if extra else ''))
     # 4. contents level, whole mutating API, every kind (LeafStore.tla): a container kept as one database record - a
     #    stand-alone Bucket / Set, or a BTree / TreeSet small enough to be stored as one inline leaf (default node
     #    sizes) - driven through the whole API (update, pop, popitem, setdefault, insert, discard, in-place set
